@@ -35,6 +35,8 @@ type Decl struct {
 	Text string   `json:"text"`
 	Deps []string `json:"deps"` // Coq names this declaration mentions (same package)
 	Rec  bool     `json:"rec"`
+	// Also: further names defined by the same Go declaration (a const ( … ) / var ( … ) group)
+	Also []string `json:"also,omitempty"`
 }
 
 // Layout is one arrangement: files (name -> ordered decl indexes).
@@ -215,6 +217,42 @@ func (g *dgen) genNamed(i int) {
 
 func (g *dgen) genConst(i int) {
 	name := fmt.Sprintf("C%d", i)
+	if g.chance("constgroup", 30) {
+		// a const ( … ) or var ( … ) group of 2–3 members: every member must be findable as a
+		// dependency, not only the last one (seeded change C04-6)
+		n := 2 + g.pick("groupn", 2)
+		isVar := g.chance("vargroup", 25)
+		var names []string
+		var sb strings.Builder
+		var deps []string
+		kw := "const"
+		if isVar {
+			kw = "var"
+		}
+		sb.WriteString(kw + " (\n")
+		for k := 0; k < n; k++ {
+			m := fmt.Sprintf("%sg%d", name, k)
+			names = append(names, m)
+			val := fmt.Sprintf("%d", g.pick("gval2", 100))
+			if !isVar && len(g.trueConsts) > 0 && g.chance("groupdep", 40) {
+				c := g.trueConsts[g.pick("groupref", len(g.trueConsts))]
+				val = c + " + " + val
+				deps = append(deps, c)
+			} else if !isVar && k > 0 && g.chance("groupself", 40) {
+				val = names[k-1] + " + " + val
+			}
+			fmt.Fprintf(&sb, "\t%s uint64 = %s\n", m, val)
+		}
+		sb.WriteString(")\n")
+		g.add(Decl{Name: names[0], Also: names[1:], Text: sb.String(), Deps: deps})
+		for _, m := range names {
+			g.consts = append(g.consts, m)
+			if !isVar {
+				g.trueConsts = append(g.trueConsts, m)
+			}
+		}
+		return
+	}
 	if len(g.trueConsts) > 0 && g.chance("constdep", 50) {
 		c := g.trueConsts[g.pick("constref", len(g.trueConsts))]
 		g.add(Decl{Name: name, Text: fmt.Sprintf("const %s uint64 = %s + %d\n", name, c, 1+g.pick("cadd", 5)), Deps: []string{c}})
@@ -693,6 +731,10 @@ func runCase(c Case) result {
 	for _, d := range c.Decls {
 		expected[d.Name] = true
 		deps[d.Name] = d.Deps
+		for _, n := range d.Also {
+			expected[n] = true
+			deps[n] = d.Deps
+		}
 	}
 	bodies := map[string]string{}
 	var res result
@@ -791,6 +833,9 @@ func runCase(c Case) result {
 		for _, f := range sorted {
 			for _, di := range f.Decls {
 				textual[c.Decls[di].Name] = k
+				for _, n := range c.Decls[di].Also {
+					textual[n] = k
+				}
 				k++
 			}
 		}
